@@ -17,7 +17,11 @@ def sh(cmd, cwd=None, extra=None):
     p = subprocess.run(cmd, shell=True, cwd=cwd, env=e, stdout=subprocess.PIPE, stderr=subprocess.STDOUT, text=True)
     return p.returncode, p.stdout
 os.makedirs(S + '/out', exist_ok=True)
-sh(f'rsync -a --exclude target --exclude .git /repo/ {S}/repo/')
+# the committed tree, not the working tree: another tool (seeded_official.sh) may have a patch applied to /repo right now
+os.makedirs(S + '/repo', exist_ok=True)
+rc0, _ = sh(f'git -C /repo archive HEAD | tar -x -C {S}/repo')
+if rc0 != 0:
+    sh(f'rsync -a --exclude target --exclude .git /repo/ {S}/repo/')
 sh(f'rsync -a --exclude target {VERIF}/harness/ {S}/harness/')
 sh(f"sed -i 's#/repo/#{S}/repo/#g' {S}/harness/Cargo.toml")
 shutil.copy(VERIF + '/known_findings.json', S + '/out/known_findings.json')
